@@ -138,6 +138,20 @@ func (c *FnCtx) script(o *Obligation, extra []Term) string {
 	return c.scriptAt(o, extra, nil)
 }
 
+// scriptAtAny: like scriptAt, keeping the assumptions relevant for ANY of the blocks.
+func (c *FnCtx) scriptAtAny(o *Obligation, extra []Term, ats []*ssa.BasicBlock) string {
+	c.atAny = ats
+	defer func() { c.atAny = nil }()
+	var first *ssa.BasicBlock
+	for _, b := range ats {
+		if b != nil {
+			first = b
+			break
+		}
+	}
+	return c.scriptAt(o, extra, first)
+}
+
 func (c *FnCtx) scriptAt(o *Obligation, extra []Term, at *ssa.BasicBlock) string {
 	var sb strings.Builder
 	sb.WriteString(prelude)
@@ -171,7 +185,7 @@ func (c *FnCtx) scriptAt(o *Obligation, extra []Term, at *ssa.BasicBlock) string
 		sb.WriteString("(assert (distinct " + strings.Join(ns, " ") + "))\n")
 	}
 	for i, a := range c.asserts {
-		if at != nil && !c.relevant(c.assertBlk[i], at) {
+		if at != nil && !c.relevantAny(c.assertBlk[i], at) {
 			continue
 		}
 		if name, named := c.assertAct[i]; named && o.Uses != nil {
@@ -296,7 +310,13 @@ func (c *FnCtx) runHoudini(tmo int, seed int) []Term {
 			g := and(append(append([]Term{}, cd.back...), cd.entry)...)
 			allGoals = append(allGoals, g)
 			o := &Obligation{Name: fmt.Sprintf("houdini.%s.%s.L%d.%s.r%d", sym(c.fn.Name()), c.uid, cd.loop.ordinal, sym(cd.desc), round), Hyp: "true", Goal: g}
-			jobs = append(jobs, job{o: o, script: c.script(o, en), tmo: tmo, probe: fast})
+			scr := ""
+			if fast && len(cd.sites) > 0 {
+				scr = c.scriptAtAny(o, en, cd.sites) // only what can reach the loop's entry / back edges
+			} else {
+				scr = c.script(o, en)
+			}
+			jobs = append(jobs, job{o: o, script: scr, tmo: tmo, probe: fast})
 			owner = append(owner, cd)
 		}
 		if len(jobs) == 0 {
